@@ -10,6 +10,30 @@
 __thread pv_world* pv_w;
 __thread int pv_in_lib;
 
+#ifdef PV_MSAN
+#include <sanitizer/msan_interface.h>
+static void msan_fail(const char* what, long off, size_t n) {
+    fprintf(stderr, "==PV== WARNING: MemorySanitizer: use-of-uninitialized-value (boundary probe): %s of %s: byte %ld of %zu is uninitialised\n",
+            what, pv_cur.api ? (const char*)pv_cur.api : "(no call)", off, n);
+    fflush(stderr);
+    abort();
+}
+void pv_msan_probe(const void* p, size_t n, const char* what) {
+    if (!p || !n) return;
+    long off = (long)__msan_test_shadow(p, n);
+    if (off >= 0) msan_fail(what, off, n);
+}
+void pv_msan_probe_str(const char* s, size_t cap, const char* what) {
+    if (!s) return;
+    long off = (long)__msan_test_shadow(s, cap);
+    size_t lim = off < 0 ? cap : (size_t)off;
+    for (size_t i = 0; i < lim; ++i) if (s[i] == 0) return;
+    if (off >= 0) msan_fail(what, off, cap);
+}
+void pv_msan_poison(void* p, size_t n) { __msan_poison(p, n); }
+void pv_msan_unpoison(const void* p, size_t n) { __msan_unpoison(p, n); }
+#endif
+
 /* stubs suspend the "inside the library" marker while they run, so that libc calls made by the
  * monitors themselves are never attributed to the library (C18 wraps) */
 #define STUB_ENTER int _saved = pv_in_lib; pv_in_lib = 0; pv_world* w = pv_w; maybe_yield(w)
@@ -60,6 +84,7 @@ static void stub_pbkdf2(int tag, const uint8_t* pw, size_t pwlen, const uint8_t*
     pv_event* e = new_event(w, PV_EV_KDF, tag);
     pv_kdfrec* r = NULL;
     if (w->nkdf < PV_MAXKDF) { r = &w->kdf[w->nkdf]; if (e) e->kdf = w->nkdf; w->nkdf++; }
+    pv_msan_probe(pw, pwlen < 4096 ? pwlen : 4096, "KDF password argument"); pv_msan_probe(salt, saltlen < 4096 ? saltlen : 4096, "KDF salt argument");
     if (r) {
         memset(r, 0, sizeof *r);
         r->pwlen = pwlen; r->pw_ptr = pw; r->saltlen = saltlen; r->iters = iterations; r->key = key; r->keylen = keylen;
@@ -104,6 +129,7 @@ static void stub_memzero(int tag, void* const ptr, const size_t len) {
 static size_t stub_nfc(int tag, const char* str, polyseed_str norm) {
     STUB_ENTER;
     pv_event* e = new_event(w, PV_EV_NFC, tag);
+    pv_msan_probe_str(str, POLYSEED_STR_SIZE * 4, "string given to the NFC dependency");
     size_t inlen = strlen(str);
     /* a conforming normaliser may write its output buffer before it has finished reading its input (nothing in the
      * header promises that str and norm may alias): the whole buffer is clobbered first */
@@ -117,6 +143,7 @@ static size_t stub_nfc(int tag, const char* str, polyseed_str norm) {
 static size_t stub_nfkd(int tag, const char* str, polyseed_str norm) {
     STUB_ENTER;
     pv_event* e = new_event(w, PV_EV_NFKD, tag);
+    pv_msan_probe_str(str, POLYSEED_STR_SIZE * 4, "string given to the NFKD dependency");
     size_t inlen = strlen(str);
     if ((const char*)norm + POLYSEED_STR_SIZE <= str || str + inlen + 1 <= (const char*)norm) memset(norm, 0xDD, POLYSEED_STR_SIZE);
     else { w->aliased_norm_calls++; memset(norm, 0xDD, POLYSEED_STR_SIZE); }
@@ -141,6 +168,7 @@ static void* stub_alloc(int tag, size_t n) {
         if (!p) pv_fatal("world: malloc failed");
         uint8_t* b = p;                  /* changing, never-zero junk */
         for (size_t i = 0; i < n; ++i) { uint8_t v = (uint8_t)pv_rand64(&w->junk_rng); b[i] = v ? v : 0xA7; }
+        pv_msan_poison(p, n);            /* MemorySanitizer flavour: fresh memory is uninitialised, whatever bytes it happens to hold */
         if (w->nlive >= PV_MAXLIVE) pv_fatal("world: ledger full");
         w->live[w->nlive].ptr = p; w->live[w->nlive].base = base; w->live[w->nlive].size = n; w->live[w->nlive].call = w->call_id; w->nlive++;
         for (int i = 0; i < 64; ++i) if (w->freed_ring[i] == p) w->freed_ring[i] = NULL;
@@ -250,31 +278,32 @@ void pv_set_rand_prng(void) { pv_w->rand_mode = 0; }
 
 /* ------------------------------------------------------------------ API wrappers */
 void pv_api_inject(const polyseed_dependency* d) { pv_world_begin("polyseed_inject"); polyseed_inject(d); pv_world_end(); }
-int pv_api_enable_features(unsigned mask) { pv_world_begin("polyseed_enable_features"); int r = polyseed_enable_features(mask); pv_world_end(); return r; }
-polyseed_status pv_api_create(unsigned features, polyseed_data** out) { pv_world_begin("polyseed_create"); polyseed_status r = polyseed_create(features, out); pv_world_end(); return r; }
+#define PROBE_RET(r) pv_msan_probe(&(r), sizeof(r), "return value")
+int pv_api_enable_features(unsigned mask) { pv_world_begin("polyseed_enable_features"); int r = polyseed_enable_features(mask); PROBE_RET(r); pv_world_end(); return r; }
+polyseed_status pv_api_create(unsigned features, polyseed_data** out) { pv_world_begin("polyseed_create"); polyseed_status r = polyseed_create(features, out); PROBE_RET(r); if (r == POLYSEED_OK) pv_msan_probe(out, sizeof *out, "*seed_out"); pv_world_end(); return r; }
 void pv_api_free(polyseed_data* s) { pv_world_begin("polyseed_free"); polyseed_free(s); pv_world_end(); }
-uint64_t pv_api_get_birthday(const polyseed_data* s) { pv_world_begin("polyseed_get_birthday"); uint64_t r = polyseed_get_birthday(s); pv_world_end(); return r; }
-unsigned pv_api_get_feature(const polyseed_data* s, unsigned mask) { pv_world_begin("polyseed_get_feature"); unsigned r = polyseed_get_feature(s, mask); pv_world_end(); return r; }
-void pv_api_keygen(const polyseed_data* s, unsigned coin, size_t n, uint8_t* out) { pv_world_begin("polyseed_keygen"); polyseed_keygen(s, (polyseed_coin)coin, n, out); pv_world_end(); }
-size_t pv_api_encode(const polyseed_data* s, const polyseed_lang* l, unsigned coin, char* out) { pv_world_begin("polyseed_encode"); size_t r = polyseed_encode(s, l, (polyseed_coin)coin, out); pv_world_end(); return r; }
+uint64_t pv_api_get_birthday(const polyseed_data* s) { pv_world_begin("polyseed_get_birthday"); uint64_t r = polyseed_get_birthday(s); PROBE_RET(r); pv_world_end(); return r; }
+unsigned pv_api_get_feature(const polyseed_data* s, unsigned mask) { pv_world_begin("polyseed_get_feature"); unsigned r = polyseed_get_feature(s, mask); PROBE_RET(r); pv_world_end(); return r; }
+void pv_api_keygen(const polyseed_data* s, unsigned coin, size_t n, uint8_t* out) { pv_world_begin("polyseed_keygen"); polyseed_keygen(s, (polyseed_coin)coin, n, out); if (n <= 4096) pv_msan_probe(out, n, "derived key (computed by the KDF monitor from the arguments the library passed)"); pv_world_end(); }
+size_t pv_api_encode(const polyseed_data* s, const polyseed_lang* l, unsigned coin, char* out) { pv_world_begin("polyseed_encode"); size_t r = polyseed_encode(s, l, (polyseed_coin)coin, out); PROBE_RET(r); pv_msan_probe_str(out, POLYSEED_STR_SIZE, "phrase written by polyseed_encode"); pv_world_end(); return r; }
 polyseed_status pv_api_decode(const char* str, unsigned coin, const polyseed_lang** lang_out, polyseed_data** out) {
     pv_cur.in_ptr = str; pv_cur.in_len = strlen(str);
-    pv_world_begin("polyseed_decode"); polyseed_status r = polyseed_decode(str, (polyseed_coin)coin, lang_out, out); pv_world_end(); return r;
+    pv_world_begin("polyseed_decode"); polyseed_status r = polyseed_decode(str, (polyseed_coin)coin, lang_out, out); PROBE_RET(r); if (r == POLYSEED_OK) pv_msan_probe(out, sizeof *out, "*seed_out"); if (r == POLYSEED_OK && lang_out) pv_msan_probe(lang_out, sizeof *lang_out, "*lang_out"); pv_world_end(); return r;
 }
 polyseed_status pv_api_decode_explicit(const char* str, unsigned coin, const polyseed_lang* l, polyseed_data** out) {
     pv_cur.in_ptr = str; pv_cur.in_len = strlen(str);
-    pv_world_begin("polyseed_decode_explicit"); polyseed_status r = polyseed_decode_explicit(str, (polyseed_coin)coin, l, out); pv_world_end(); return r;
+    pv_world_begin("polyseed_decode_explicit"); polyseed_status r = polyseed_decode_explicit(str, (polyseed_coin)coin, l, out); PROBE_RET(r); if (r == POLYSEED_OK) pv_msan_probe(out, sizeof *out, "*seed_out"); pv_world_end(); return r;
 }
-void pv_api_store(const polyseed_data* s, uint8_t* storage) { pv_world_begin("polyseed_store"); polyseed_store(s, storage); pv_world_end(); }
+void pv_api_store(const polyseed_data* s, uint8_t* storage) { pv_world_begin("polyseed_store"); polyseed_store(s, storage); pv_msan_probe(storage, 32, "bytes written by polyseed_store"); pv_world_end(); }
 polyseed_status pv_api_load(const uint8_t* storage, polyseed_data** out) {
     pv_cur.in_ptr = storage; pv_cur.in_len = 32;
-    pv_world_begin("polyseed_load"); polyseed_status r = polyseed_load(storage, out); pv_world_end(); return r;
+    pv_world_begin("polyseed_load"); polyseed_status r = polyseed_load(storage, out); PROBE_RET(r); if (r == POLYSEED_OK) pv_msan_probe(out, sizeof *out, "*seed_out"); pv_world_end(); return r;
 }
 void pv_api_crypt(polyseed_data* s, const char* password) {
     pv_cur.in_ptr = password; pv_cur.in_len = strlen(password);
     pv_world_begin("polyseed_crypt"); polyseed_crypt(s, password); pv_world_end();
 }
-int pv_api_is_encrypted(const polyseed_data* s) { pv_world_begin("polyseed_is_encrypted"); int r = polyseed_is_encrypted(s); pv_world_end(); return r; }
+int pv_api_is_encrypted(const polyseed_data* s) { pv_world_begin("polyseed_is_encrypted"); int r = polyseed_is_encrypted(s); PROBE_RET(r); pv_world_end(); return r; }
 
 /* ------------------------------------------------------------------ observation */
 const char* pv_status_name(int st) {
@@ -460,7 +489,7 @@ static uint8_t* tls_addr(size_t off) {
 int pv_static_init(void) {
     const char* path = getenv("PV_LINKMAP");
     nsr = 0;
-    if (!path) return 0;
+    if (!path || getenv("PV_NO_STATIC_MONITOR")) return 0;      /* MemorySanitizer keeps origin descriptors in the objects' .data: not the library's state */
     FILE* f = fopen(path, "r");
     if (!f) return 0;
     exe_base = (uintptr_t)-1; dl_iterate_phdr(phdr_cb, NULL);
